@@ -238,14 +238,32 @@ func concOperandScenario(r *rng, id string) *EvalCase {
 	c.Store.Flags, c.Store.Segments = []WFlag{}, []WSegment{}
 	top := simpleFlag("top", true, 0, 2)
 	top.Form = pick(r, []string{"plain", "pre", "json"})
-	var ctx *WCtx
+	// one context that really has the attribute of each of the four operand clauses
+	shared := WSCtx{Kind: "user", Key: pick(r, []string{"a", "b", "abc"}), Attrs: []WAttr{}}
 	for i := 0; i < 4; i++ {
 		g.forceOps = []string{"matches", "before", "after", "semVerEqual", "semVerLessThan", "semVerGreaterThan", "in"}
 		oc := g.operatorCase(id)
 		cl := oc.Flag.Rules[0].Clauses[0]
 		cl.Neg = false
-		if ctx == nil {
-			ctx = &oc.Ctx
+		var firstAttr *WAttr
+		if oc.Ctx.T == "single" && len(oc.Ctx.C.Attrs) > 0 {
+			firstAttr = &oc.Ctx.C.Attrs[0]
+		} else if oc.Ctx.T == "multi" {
+			for j := range oc.Ctx.Cs {
+				if len(oc.Ctx.Cs[j].Attrs) > 0 && firstAttr == nil {
+					firstAttr = &oc.Ctx.Cs[j].Attrs[0]
+				}
+			}
+		}
+		name := fmt.Sprintf("op%d", i)
+		if firstAttr != nil {
+			shared.Attrs = append(shared.Attrs, WAttr{name, firstAttr.V})
+		}
+		cl.CK = pick(r, []string{"", "", "user"})
+		if cl.CK == "" {
+			cl.Attr = mkRef("lit", name)
+		} else {
+			cl.Attr = mkRef("ref", "/"+name)
 		}
 		seg := simpleSegment(fmt.Sprintf("cs%d", i))
 		seg.Form = pick(r, []string{"plain", "plain", "pre", "json"})
@@ -261,7 +279,7 @@ func concOperandScenario(r *rng, id string) *EvalCase {
 		c.Store.Flags = append(c.Store.Flags, pf)
 		top.Prereqs = append(top.Prereqs, WPrereq{pf.Key, 0})
 	}
-	c.Ctx = *ctx
+	c.Ctx = WCtx{T: "single", C: &shared}
 	c.Flag = top
 	return c
 }
